@@ -38,22 +38,45 @@ Proof. reflexivity. Qed.
 Example ex_table_pending : s_pend (run (ex_s false) ex_table_ops) <> [].
 Proof. vm_compute. discriminate. Qed.
 
-(** commit_exact_partial: a fork is computed, another fork is computed and rolled back,
-    an empty update marks the PARENT, then the first fork is committed *)
+(** commit_exact: a fork is computed, another fork is computed and rolled back, empty updates
+    mark the PARENT and the FORK ITSELF (the history of the former finding 1), the fork is read,
+    then it is committed *)
 Definition ex_fork : out * st := mem_set (ex_s false) ex_root [(kc, v1)].
 Definition ex_fork_root : xroot :=
   match fst ex_fork with RRoot r => r | _ => XNil end.
 Definition ex_between : list op :=
-  [OMemSet ex_root [(ka, v2)]; OMemSet ex_root []; ORollback ex_root; OGet ex_fork_root [kc]].
+  [OMemSet ex_root [(ka, v2)]; OMemSet ex_root []; ORollback ex_root;
+   OMemSet ex_fork_root []; OGet ex_fork_root [kc]].
 
 Example ex_fork_ok : ex_fork = (RRoot ex_fork_root, snd ex_fork).
 Proof. vm_compute. reflexivity. Qed.
 
-Example ex_guard : no_marker_on ex_fork_root ex_between = true.
+Example ex_guard : still_pending ex_fork_root ex_between = true.
+Proof. vm_compute. reflexivity. Qed.
+
+(** (the former guard does not hold on this history) *)
+Example ex_old_guard_fails : no_marker_on ex_fork_root ex_between = false.
 Proof. vm_compute. reflexivity. Qed.
 
 Example ex_commit_acked :
   fst (step (run (snd ex_fork) ex_between) (OCommit ex_fork_root)) = RRoot ex_fork_root.
+Proof. vm_compute. reflexivity. Qed.
+
+Example ex_commit_reads :
+  read (snd (step (run (snd ex_fork) ex_between) (OCommit ex_fork_root))) ex_fork_root kc = Some v1.
+Proof. vm_compute. reflexivity. Qed.
+
+(** commit_exact_general beyond commit_exact: the fork is rolled back, computed again and
+    committed (no empty MemSet on it after the rollback) *)
+Definition ex_again : list op :=
+  [OMemSet ex_fork_root []; ORollback ex_fork_root; OMemSet ex_root [(kc, v1)]].
+
+Example ex_general_guard :
+  no_marker_after_discard ex_fork_root ex_again = true /\ still_pending ex_fork_root ex_again = false.
+Proof. vm_compute. auto. Qed.
+
+Example ex_again_acked :
+  fst (step (run (snd ex_fork) ex_again) (OCommit ex_fork_root)) = RRoot ex_fork_root.
 Proof. vm_compute. reflexivity. Qed.
 
 (** forks_independent: commit the second fork, roll back the first, try to commit the first *)
